@@ -45,7 +45,7 @@ def seeded_table():
     nb = sum(1 for r in rows if r.rstrip().endswith("| yes |"))
     nn = sum(1 for r in rows if r.rstrip().endswith("| no |"))
     now = sum(1 for r in rows if "| yes | yes |" in r or "| yes | no |" in r or "| yes | ? |" in r)
-    tail = f"\nOf {n} confirmed changes (thirteen rounds), {now} are caught by the targeted property's own check as it stands. The last column says what that check did BEFORE it had been extended in response to the change's round (rounds 1-3: re-run of commit 9501b01 against the archived patches; rounds 4-13: observed directly at the time): {nb} caught, {nn} not caught, the rest not measured at that point. Every 'no' is a gap that the round closed (Deviations 4, 6, 8, 8a-8h).\n" if before else ""
+    tail = f"\nOf {n} confirmed changes (thirteen rounds), {now} are caught by the targeted property's own check as it stands. The last column says what that check did BEFORE it had been extended in response to the change's round (rounds 1-3: re-run of commit 9501b01 against the archived patches; rounds 4-13: observed directly at the time): {nb} caught, {nn} not caught, the rest not measured at that point. Every 'no' is a gap that the round closed (Deviations 4, 6, 8, 8a-8j).\n" if before else ""
     return "\n".join(["| change | property | needs, to manifest | confirmed (98+3 tests pass, demo fails / passes without) | checks that alarm now (quick tier; all 18 run for rounds 1-9, the property's own check plus C02, C09 and C19 for rounds 10-13) | caught by its property's check now | ... and by that check before it was extended in response |", "|---|---|---|---|---|---|---|"] + rows) + "\n" + tail
 
 def refactors_table():
